@@ -71,4 +71,50 @@ theorem epochs_keeps_start_height (exportedHeight importHeight : Nat) :
 /-- before the repair a running epoch's start height was replaced by the import height -/
 theorem epochs_height_counterexample : epochInit false true 2 8 = 8 := by decide
 
+/-! ### inside `evm.Accounts`: which accounts the export walks
+
+An account of the auth module is plain, an Ethereum account or a vesting account; the last two carry a code hash (both
+implement `EthAccountI`).  A contract can sit under a vesting account: an address is converted into a vesting account
+and a CREATE lands on it afterwards, or a liquid token is redeemed to a contract.  The EVM export must walk every
+account that can carry code; the import writes code and storage for exactly the accounts listed. -/
+
+inductive Kind | plain | eth | vesting
+  deriving Repr, DecidableEq
+
+structure Acct where
+  kind : Kind
+  code : Nat        -- 0 = no code
+  storage : Nat     -- an opaque digest of the contract's storage
+  deriving Repr, DecidableEq
+
+/-- `ifaceAssert` = the export asserts the interface (every account kind with a code hash); otherwise the concrete
+    Ethereum account type -/
+def walked (ifaceAssert : Bool) (a : Acct) : Bool :=
+  match a.kind with
+  | .plain => false
+  | .eth => true
+  | .vesting => ifaceAssert
+
+/-- the EVM state the importing chain ends up with for one account: code and storage when the export listed it, nothing
+    otherwise (the auth section still recreates the account itself, code hash included) -/
+def evmRoundTrip (ifaceAssert : Bool) (a : Acct) : Nat × Nat := if walked ifaceAssert a then (a.code, a.storage) else (0, 0)
+
+/-- plain accounts carry no code (the EVM keeper turns an account into an Ethereum account when it gives it code) -/
+def WellFormed (a : Acct) : Prop := a.kind = .plain → a.code = 0 ∧ a.storage = 0
+
+/-- **no contract is dropped**: with the interface assertion the export / import cycle restores code and storage of every
+    account, whatever kind of account the contract sits under -/
+theorem evm_accounts_roundtrip (a : Acct) (h : WellFormed a) : evmRoundTrip true a = (a.code, a.storage) := by
+  cases a with
+  | mk kind code storage =>
+    cases kind <;> simp_all [evmRoundTrip, walked, WellFormed]
+
+/-- asserting the concrete type drops a contract that sits under a vesting account -/
+theorem concrete_assertion_counterexample :
+    evmRoundTrip false { kind := .vesting, code := 77, storage := 19 } = (0, 0) ∧
+    evmRoundTrip true { kind := .vesting, code := 77, storage := 19 } = (77, 19) := by decide
+
+/-- the export asserts the interface (regenerated fact) -/
+theorem evm_export_walks_every_coded_account : Facts.evmExportAccountAssertion = "haqqtypes.EthAccountI" := by decide
+
 end Haqq.C19
